@@ -140,6 +140,15 @@ for _pid in ("C01", "C02", "C07", "C18"):
     GRIDS[_pid] = _leaf_grid(_pid)
 
 
+@grid("C03")
+def g_c03(tier, seed):
+    cnt = []
+    fails = rt.rt_c03(tier, count=cnt)
+    return dict(evaluations=cnt[0] if cnt else 0, distinct_nontrivial=cnt[0] if cnt else 0,
+                rule="real Transformed distributions: hand-built (conditional base / conditional bijection mixes) and the buildable flow factories x invert x conditional, perturbed parameters, 2 keys each; the three evaluation paths compared with the public base/bijection methods; merge_transforms at nesting depth 2-4 with non-commuting bijections",
+                samples=["coupling_flow(invert=True, cond_dim=3) perturbed"], failures=fails[:5], errors=[])
+
+
 def main():
     if len(sys.argv) == 3 and sys.argv[1] == "--c10-batch":
         print(json.dumps(rt.rt_bisection_batch(json.loads(sys.argv[2]))))
